@@ -21,6 +21,8 @@ class Case:
 
 def san_site(stderr):
     """Condense a sanitizer report into a short site signature."""
+    if "HANG: no completion" in stderr and "Sanitizer" not in stderr:
+        return "hang", "timeout"
     m = re.search(r"(AddressSanitizer|UndefinedBehaviorSanitizer|ThreadSanitizer|LeakSanitizer)[: ]+([^\n]*)", stderr)
     kind = (m.group(2).split(" on ")[0].strip() if m else "abort")[:80]
     m2 = re.search(r"runtime error: ([^\n]*)", stderr)
@@ -35,7 +37,7 @@ def san_site(stderr):
     return kind, fn
 
 
-def run_batch(cmd, cases, timeout=300, env=None, per_case_reset=None):
+def run_batch(cmd, cases, timeout=300, env=None, per_case_reset=None, max_restarts=8):
     """Run all ops of `cases` through one process; on a crash/timeout, attribute it to the case
     whose output is incomplete, mark that case, and continue with the following cases in a fresh
     process.  Sets case.<attr> lists via the returned dict {case_index: lines}."""
@@ -43,14 +45,18 @@ def run_batch(cmd, cases, timeout=300, env=None, per_case_reset=None):
     crashes = {}
     start = 0
     guard = 0
-    while start < len(cases) and guard < 50:
+    while start < len(cases) and guard < max_restarts:
         guard += 1
         lines = []
         for c in cases[start:]:
             if per_case_reset:
                 lines.append(per_case_reset)
             lines.extend(c.ops)
-        rc, o, e = C.run_lines(cmd, lines, timeout=timeout, env=env)
+        # a hang must not cost the whole budget: scale the limit with the amount of work
+        tmo = min(timeout, 20 + 0.02 * len(lines))
+        rc, o, e = C.run_lines(cmd, lines, timeout=tmo, env=env)
+        if rc == -999:
+            e += "\nHANG: no completion within %.0f s (deadlock or livelock)" % tmo
         pos = 0
         done = start
         for i in range(start, len(cases)):
